@@ -8,7 +8,7 @@ with fresh encoder instances, interleaved with further mutations.
 """
 import pvl
 from pvl.encoder import PVLEncoder, ODLEncoder, PDSLabelEncoder, ISISEncoder
-from pvl.collections import PVLGroup, PVLObject, OrderedMultiDict
+from pvl.collections import PVLGroup, PVLObject, PVLModule, OrderedMultiDict
 
 from .. import core
 from ..listmodel import Machine, MC
@@ -45,7 +45,7 @@ class M13(Machine):
             if not (isinstance(ri, tuple) and len(ri) == 2):
                 return
             rk, rv = ri
-            if isinstance(mv, MC) and mv.cls == "PVLGroup" and \
+            if isinstance(mv, MC) and mv.cls in ("PVLGroup", "MyGroup") and \
                     type(rv) is PVLObject and id(rv) not in self.by_real \
                     and rk == mk:
                 inner = list(rv)
@@ -67,7 +67,17 @@ class M13(Machine):
         enc = None
         nchars = 2000 + 400 * sum(1 for _ in self.reg)
         for i in range(ncalls):
-            if between and i:
+            if between and i and between[0] == "same-encoder-fails":
+                # the very same encoder is used on something it must refuse,
+                # part-way into a nested block (crash and reuse)
+                if enc is not None and not fresh:
+                    try:
+                        enc.encode(PVLModule([("o", PVLObject([
+                            ("g", PVLGroup([("k", 1), ("bad", object())])),
+                        ]))]))
+                    except Exception:   # noqa: BLE001
+                        pass
+            elif between and i:
                 # somebody else builds (and uses) another encoder in between
                 try:
                     other = make_encoder(between[0], between[1])
@@ -133,7 +143,9 @@ class M13(Machine):
 
 class Gen13(HistGen):
     WORDS = ["ALPHA", "beta_2", "Two Words", "it's", "", "N/A", "a\tb",
-             "line one\nline two", "x" * 50, "NULL", "12", "2001-01-01"]
+             "line one\nline two", "x" * 50, "NULL", "12", "2001-01-01",
+             "thirty-seven characters, not an ident", "MARS EXPRESS",
+             "a symbol of just about forty characters."]
     interleaved = False
 
     def __init__(self, rng, machine):
@@ -204,7 +216,10 @@ class Gen13(HistGen):
         if tops and r.random() < 0.8:
             cid = r.choice(tops)
         op = ["dumps", cid, enc, opts, r.randint(2, 4), r.random() < 0.5]
-        if r.random() < 0.3:
+        x = r.random()
+        if x < 0.15:
+            op.append(["same-encoder-fails", {}])
+        elif x < 0.45:
             op.append([r.choice(["PVL", "ODL", "PDS3", "ISIS"]),
                        {"width": r.choice([20, 40, 60, 79, 80, 81, 120]),
                         "indent": r.choice([0, 2, 4])}])
